@@ -5,7 +5,7 @@ from a single replicated log. Core Lean only.
 Anchors (code as of this tree):
 * consensus/raft/raft.go    raftWrapper.AddPeer / RemovePeer (presence checks, single-peer guard), Peers
 * consensus/raft/consensus.go  Consensus.AddPeer / RmPeer / commit (redirectToLeader + retry loops), WaitForSync, Peers (sorted)
-* cluster.go                PeerRemove (vacatePeer, then RmPeer), watchPeers (self-removal), Shutdown (leave / Clean)
+* cluster.go                PeerRemove (vacatePeer, then RmPeer), watchPeers (self-removal), Shutdown (leave / Clean: fix f1a149d, `removed` only after a successful RmPeer)
 * hashicorp/raft v1.1.1 configuration.go nextConfiguration / checkConfiguration (TRUSTED, mirrored here only as
   far as its answers are visible through the wrapper: AddVoter gives the vote at once, AddNonvoter never
   demotes, a configuration without voters is refused)
@@ -203,13 +203,14 @@ def watchTick (peers : Option (List Nat)) (self : Nat) (f : CFlags) : CFlags × 
   | none => (f, false)
   | some ps => if ps.contains self then (f, false) else ({ f with removed := true }, true)
 
-/-- `Cluster.Shutdown`: leave when configured (and ready, and not already removed), stop consensus, clean when removed and ready -/
-def shutdownActs (f : CFlags) (peersOk : Bool) : CFlags × List Act :=
+/-- `Cluster.Shutdown`: try to leave when configured (and ready, and not already removed) — the peer counts as
+    removed only when `RmPeer(self)` succeeded (`rmOk`) —, stop consensus, clean when removed and ready -/
+def shutdownActs (f : CFlags) (peersOk rmOk : Bool) : CFlags × List Act :=
   if f.shutdown then (f, [])
   else
-    let leave := f.leaveOnShutdown && f.ready && !f.removed
-    let f1 : CFlags := if leave then { f with removed := true } else f
-    let a1 : List Act := if leave && peersOk then [.rmSelf] else []
+    let tries := f.leaveOnShutdown && f.ready && !f.removed && peersOk
+    let f1 : CFlags := if tries && rmOk then { f with removed := true } else f
+    let a1 : List Act := if tries then [.rmSelf] else []
     let a3 : List Act := if f1.removed && f1.ready then [.clean] else []
     ({ f1 with shutdown := true }, a1 ++ [.consShutdown] ++ a3 ++ [.done])
 
@@ -333,7 +334,7 @@ def step (s : MState) : Op → Option MState
   | .start j =>
     if s.running.contains j then none
     else some { s with running := insertPeer j s.running, wiped := erasePeer j s.wiped }   -- a fresh staging instance
-  | .add at_ j res => if s.wiped.contains j then none else issue s at_ (rwAddPeer j) res
+  | .add at_ j res => issue s at_ (rwAddPeer j) res
   | .rm at_ j res => issue s at_ (rwRemovePeer j) res
   | .pin at_ p res =>
     if s.tier == .cluster && res == .err then
@@ -346,16 +347,13 @@ def step (s : MState) : Op → Option MState
   | .ready j l v sy pins =>
     if s.running.contains j && cfgVoter s.cfg j && l && v && sy && canonMap pins == canonMap s.pins then some s else none
   | .nonvoter at_ j res =>
-    if s.member at_ && res == .ok && !s.wiped.contains j then some { s with log := s.log ++ [.addNonvoter j] } else none
+    if s.member at_ && res == .ok then some { s with log := s.log ++ [.addNonvoter j] } else none
   | .sync j res =>
     if s.running.contains j && res == (if cfgVoter s.cfg j then SyncRes.ok else SyncRes.err) then some s else none
   | .stop j => some { s with running := erasePeer j s.running }
   | .restart j =>
-    if s.wiped.contains j then
-      -- the data folder is gone: the peer bootstraps a fresh one-peer cluster (only meaningful when it was the only peer)
-      (if s.ids == [j] then
-         some { s with log := [.boot [j]], running := insertPeer j s.running, wiped := erasePeer j s.wiped, departed := erasePeer j s.departed }
-       else none)
+    -- a peer whose data folder was rotated away (it left) does not come back by a restart: it has to join afresh
+    if s.wiped.contains j then none
     else some { s with running := insertPeer j s.running, departed := erasePeer j s.departed }
   | .clean j gone => if gone then some { s with running := erasePeer j s.running } else none
   | .join j via res pins =>
@@ -379,8 +377,10 @@ def step (s : MState) : Op → Option MState
     if s.member j then
       let r := direct (rwRemovePeer j) s.log
       if r.1 == res then
-        -- `removed` is set before RmPeer is tried: the data is discarded whatever RmPeer answered
-        some { s with log := r.2, running := erasePeer j s.running, departed := insertPeer j s.departed, wiped := insertPeer j s.wiped }
+        -- only a peer whose RmPeer(self) succeeded is `removed` and discards its data; either way it shuts down
+        (if res == .ok then
+           some { s with log := r.2, running := erasePeer j s.running, departed := insertPeer j s.departed, wiped := insertPeer j s.wiped }
+         else some { s with log := r.2, running := erasePeer j s.running })
       else none
     else none
 
